@@ -72,15 +72,27 @@ func emit(l *logger.Logger, r *Rec) (file string, line int) {
 	lv := Levels[r.Level]
 	switch r.Entry {
 	case 0:
-		_, file, line, _ = runtime.Caller(0); l.Log(ctx, lv, r.Msg, vlog.Args(r.Call)...)
+		_, file, line, _ = runtime.Caller(0)
+		l.Log(ctx, lv, r.Msg, vlog.Args(r.Call)...) // stays on the line after runtime.Caller
+		line++
 	case 1:
-		_, file, line, _ = runtime.Caller(0); l.LogAttrs(ctx, lv, r.Msg, vlog.Attrs(r.Call)...)
+		_, file, line, _ = runtime.Caller(0)
+		l.LogAttrs(ctx, lv, r.Msg, vlog.Attrs(r.Call)...) // stays on the line after runtime.Caller
+		line++
 	case 3:
 		return emitOddSource(l, r)
 	default:
-		_, file, line, _ = runtime.Caller(0); l.Logf(ctx, lv, "%s", r.Msg)
+		_, file, line, _ = runtime.Caller(0)
+		l.Logf(ctx, lv, "%s", r.Msg) // stays on the line after runtime.Caller
+		line++
 	}
 	return
+}
+
+// IsFileOf reports whether got names the source file path: the whole path or its last
+// elements, cut at a path separator (how many elements a handler shows is its own choice).
+func IsFileOf(got, path string) bool {
+	return got != "" && (got == path || strings.HasSuffix(path, "/"+got))
 }
 
 func LastTwo(file string) string {
@@ -90,7 +102,6 @@ func LastTwo(file string) string {
 	}
 	return file
 }
-
 
 // derive builds the logger of a chain, sharing every already derived prefix: the loggers of
 // different records are then siblings and descendants of common parents (a derivation
@@ -307,13 +318,13 @@ func genStructure(budget, maxChain int) Gen {
 // ---------------------------------------------------------------- driver
 
 type passResult struct {
-	name     string
-	evals    int64
-	fail     string
-	failRec  string
-	states   map[string]bool
-	derivs   int64
-	nontriv  int64
+	name    string
+	evals   int64
+	fail    string
+	failRec string
+	states  map[string]bool
+	derivs  int64
+	nontriv int64
 }
 
 func handlerOf(l *logger.Logger) any {
@@ -394,7 +405,6 @@ func runPass(name string, g Gen, trackStates bool) *passResult {
 }
 
 var deadline time.Time
-
 
 func newRoot(w *sink, source bool) *logger.Logger {
 	opts := logger.NewOptions(logger.LevelDebug, false, source)
